@@ -21,10 +21,32 @@ def sh(cmd, **kw):
 
 
 def main():
-    if sh(f"git -C {REPO} status --porcelain --untracked-files=no").stdout.strip():
-        print("refusing: /repo has local modifications")
-        return 2
-    seeds = sys.argv[1:] or sorted(os.listdir(os.path.join(VERIF, "seeded")))
+    global REPO
+    args = sys.argv[1:]
+    scratch = None
+    if "--inplace" in args:
+        args.remove("--inplace")
+        if sh(f"git -C {REPO} status --porcelain --untracked-files=no").stdout.strip():
+            print("refusing: /repo has local modifications")
+            return 2
+    else:
+        # default: a scratch worktree of /repo's HEAD (other processes may be using /repo itself); the checks are
+        # pointed at it with FLEXSTACK_REPO.  `--inplace` applies to /repo as the brief describes.
+        import tempfile
+        scratch = tempfile.mkdtemp(prefix="seedwt_", dir="/tmp")
+        os.rmdir(scratch)
+        assert sh(f"git -C /repo worktree add -q --detach {scratch} HEAD").returncode == 0
+        REPO = scratch
+    try:
+        return run(args)
+    finally:
+        if scratch:
+            sh(f"git -C /repo worktree remove --force {scratch}")
+            sh("git -C /repo worktree prune")
+
+
+def run(args):
+    seeds = [a for a in args] or sorted(d for d in os.listdir(os.path.join(VERIF, "seeded")) if os.path.isdir(os.path.join(VERIF, "seeded", d)))
     results = {}
     for sid in seeds:
         d = os.path.join(VERIF, "seeded", sid)
@@ -40,7 +62,7 @@ def main():
             for prop in props:
                 t0 = time.time()
                 r = sh(f"/venv/bin/python harness/vcheck.py {prop} --tier quick", cwd=VERIF,
-                       env=dict(os.environ, VERIF_SEED=os.environ.get("VERIF_SEED", "1")))
+                       env=dict(os.environ, VERIF_SEED=os.environ.get("VERIF_SEED", "1"), FLEXSTACK_REPO=REPO))
                 viol = [l for l in r.stdout.split("\n") if l.startswith("VIOLATION")]
                 verdict = "CAUGHT" if (r.returncode == 1 and viol) else ("MISSED" if r.returncode == 0 else f"ERROR rc={r.returncode}")
                 nf = " (no-failing-input-found)" if viol and all("no-failing-input-found" in v for v in viol) else ""
